@@ -6,6 +6,7 @@ bound with the exact table dump as state key (no abstraction) and (2) to a fixpo
 under a quotient key (rowids modulo order-preserving renaming; quick: coarse key).
 In every reached state the canonical dump and the per-lexicon API transcripts must equal
 those of a fresh database holding just the installed lexicons."""
+import copy
 import time
 import warnings
 
@@ -88,6 +89,9 @@ class Sys05(e1.System):
         if ev[0] == 'add':
             if ev[1] == 'I':
                 env.add(env.write_file('cili.tsv', universe.ili_tsv(), workdir))
+            elif len(ev) > 2 and ev[2] == 'memory':
+                # the other public entry point (used by chained events): wn.add_lexical_resource
+                env.add_resource(copy.deepcopy(self.res[ev[1]]))
             else:
                 env.add(env.write_file(f'{ev[1]}.xml', self.xml[ev[1]], workdir))
         else:
